@@ -19,6 +19,7 @@ import impl
 TOL_P = 1e-12          # row-wise probabilities: exact unless BLAS changes the summation order
 TOL_M = 1e-9           # extracted model vs implementation
 MARGIN = 1e-9          # arg-max decisions are compared exactly only above this margin
+TOL_F32 = 1e-5         # float32 queries / float32-fitted models: float32 resolution
 
 LINEAR = ["LinearModel", "LinearMMD", "LinearWasserstein", "RIM", "SparseLinearModel", "SparseLinearMMD", "SparseLinearMI"]
 MLP = ["MLPModel", "MLPMMD", "MLPWasserstein"]
@@ -160,7 +161,7 @@ def margins(P):
 
 
 # ---------------------------------------------------------------------------------------------- L3 suite
-def rowwise_suite(chk, key, fam, est, A, rng, replay, proba=True, tolscale=1.0):
+def rowwise_suite(chk, key, fam, est, A, rng, replay, proba=True, tolscale=1.0, margin=MARGIN):
     """the property on the implementation: rows of predict(_proba)(A[r]) are rows r of predict(_proba)(A)"""
     try:
         L = np.asarray(est.predict(A))
@@ -202,14 +203,14 @@ def rowwise_suite(chk, key, fam, est, A, rng, replay, proba=True, tolscale=1.0):
             if not diff <= TOL_P * tolscale:
                 chk.fail(f"{key}:{kind}:proba", f"predict_proba of the selected rows differs from the rows of the whole-array result by {diff:.3e}", rp, layer="L3")
                 ok = False
-            bad = [b for b in bad if mg[r[b]] > MARGIN]
+            bad = [b for b in bad if mg[r[b]] > margin]
         if len(bad):
             chk.fail(f"{key}:{kind}:labels", f"predict of the selected rows differs from the labels of the whole array at positions {list(map(int, bad))[:5]}", rp, layer="L3")
             ok = False
     return L, P, ok
 
 
-def train_labels(chk, key, est, X, L, P, replay):
+def train_labels(chk, key, est, X, L, P, replay, margin=MARGIN):
     lab = np.asarray(est.labels_)
     if lab.shape != L.shape:
         chk.fail(key + ":train-labels", f"predict(X_train) has shape {L.shape}, labels_ {lab.shape}", replay, layer="L3")
@@ -217,7 +218,7 @@ def train_labels(chk, key, est, X, L, P, replay):
     bad = np.nonzero(lab != L)[0]
     if P is not None:
         mg = margins(P)
-        bad = [b for b in bad if mg[b] > MARGIN]
+        bad = [b for b in bad if mg[b] > margin]
     if len(bad):
         chk.fail(key + ":train-labels", f"predict(X_train) does not reproduce labels_ (rows {list(map(int, bad))[:5]})", replay, layer="L3")
 
@@ -1008,7 +1009,7 @@ def take(V, r):
     return type(V)(V[k] for k in r)
 
 
-def compare_to_reference(chk, key, est, V, Lref, Pref, replay, tolscale=1.0):
+def compare_to_reference(chk, key, est, V, Lref, Pref, replay, tolscale=1.0, tol=TOL_P, margin=MARGIN):
     """predict / predict_proba of the representation V must be the float64 reference, V itself untouched"""
     snap = snapshot(V)
     try:
@@ -1025,11 +1026,11 @@ def compare_to_reference(chk, key, est, V, Lref, Pref, replay, tolscale=1.0):
     bad = np.nonzero(L != Lref)[0]
     if P is not None:
         diff = float(np.max(np.abs(P - Pref))) if P.size else 0.0
-        stat("repr", diff)
-        if not diff <= TOL_P * tolscale:
+        stat("repr" if tol == TOL_P else "repr-float32-queries", diff)
+        if not diff <= tol * tolscale:
             chk.fail(key + ":proba", f"predict_proba differs from the float64 reference by {diff:.3e}", replay, layer="L3")
         mg = margins(Pref)
-        bad = [b for b in bad if mg[b] > MARGIN]
+        bad = [b for b in bad if mg[b] > max(margin, 10 * tol * tolscale if tol != TOL_P else 0.0)]
     if len(bad):
         chk.fail(key + ":labels", f"predict differs from the float64 reference at rows {[int(b) for b in bad][:6]}", replay, layer="L3")
 
@@ -1077,11 +1078,13 @@ def stream_repr(chk, i, rng):
         distinct |= set(Lref.tolist())
         for vtag, V in representations(Q, rng):
             rp = dict(replay, query=qtag, representation=vtag, Q=Q.tolist())
-            compare_to_reference(chk, f"{key}:{vtag}", est, V, Lref, Pref, rp, tolscale)
+            f32 = vtag == "float32" and name != "Kauri"      # one float64-fitted model, float32 queries: float32 resolution; Kauri converts to float64: exact
+            tkw = dict(tol=TOL_F32, margin=10 * TOL_F32) if f32 else {}
+            compare_to_reference(chk, f"{key}:{vtag}", est, V, Lref, Pref, rp, tolscale, **tkw)
             sels = [("subset", sorted(rng.choice(m, size=int(rng.integers(1, m)), replace=False).tolist())), ("permutation", rng.permutation(m).tolist()),
                     ("single", [int(rng.integers(0, m))]), ("single", [int(rng.integers(0, m))])]
             for stag, r in sels:
-                compare_to_reference(chk, f"{key}:{vtag}:{stag}", est, take(V, r), Lref[r], None if Pref is None else Pref[r], dict(rp, selection=stag, r=r), tolscale)
+                compare_to_reference(chk, f"{key}:{vtag}:{stag}", est, take(V, r), Lref[r], None if Pref is None else Pref[r], dict(rp, selection=stag, r=r), tolscale, **tkw)
             chk.dist["repr-variant:" + vtag] += 1
         model_on_current_fit(chk, key + ":" + qtag, name, est, Q, list(range(m)), K, dict(replay, query=qtag), train=False)
     # fit on another representation of the training values: same labels_, predictions, training array untouched
@@ -1098,6 +1101,21 @@ def stream_repr(chk, i, rng):
             continue
         if not unchanged(V, snap):
             chk.fail(f"{key}:fit:{vtag}:argument-modified", "fit / predict modified the caller's training array", rp, layer="L3")
+        if vtag == "float32":
+            # a model REFITTED on single-precision data is another model (kernels / products in float32, amplified by training):
+            # it is not compared with the float64 fit; the property must hold on the float32-fitted model itself
+            V32 = np.ascontiguousarray(V)
+            f32scale = TOL_F32 / TOL_P * tolscale
+            Ls, Ps, _ = rowwise_suite(chk, f"{key}:fit:float32", "repr-fit-float32", e2, V32, rng, rp, proba=proba, tolscale=f32scale, margin=10 * TOL_F32 * tolscale)
+            if Ls is not None:
+                if Ls.shape != (n,) or (proba and (Ps.shape != (n, K) or not np.isfinite(Ps).all())):
+                    chk.fail(f"{key}:fit:float32:shape", "the model fitted on float32 data returns wrongly shaped or non-finite predictions for its training data", rp, layer="L3")
+                elif proba:
+                    train_labels(chk, f"{key}:fit:float32", e2, V32, Ls, Ps, rp, margin=10 * TOL_F32 * tolscale)
+                elif not np.array_equal(Ls, np.asarray(e2.labels_)):
+                    chk.fail(f"{key}:fit:float32:train-labels", "Kauri fitted on float32 data: predict(X_train) does not reproduce labels_", rp, layer="L3")
+            chk.dist["repr-fit:" + vtag] += 1
+            continue
         Pt = np.asarray(est.predict_proba(X)) if proba else None
         mg = margins(Pt) if proba else np.full(n, np.inf)
         for what, a, b in (("labels_ vs reference fit", np.asarray(e2.labels_), np.asarray(est.labels_)), ("predict(X_train) vs labels_", L2, np.asarray(e2.labels_))):
